@@ -32,7 +32,10 @@ def check_design(case):
     except OracleUnsupported:
         return None
     except InvalidDesign as e:
-        raise AssertionError(f"family member is not a valid design: {desc}: {e}")
+        # (every family member is written as a valid design - the unchanged tree shows that on every run; if the OBJECTS no
+        #  longer read as one, something rewrote what the designer wrote before elaboration even began)
+        return (f"design.rewritten/{desc.split('/')[0]}", f"{desc}: the design objects no longer say what was written: {str(e)[:200]}",
+                {"design": desc})
     try:
         pkg = h.to_proto(top)
     except Exception as e:
@@ -382,12 +385,17 @@ def array_share_designs():
             m.c = h.Signal()
             for k in range(12):
                 m.add(T()(t=m.bus[k]), name=f"t{k}")
-            conn = conns[cname](m)
-            conn = conn[0:n * w]
+            if cname.startswith("direct"):
+                step = int(cname[-1])
+                start = {"direct-step2": 1, "direct-step3": 0}[cname]
+                conn = m.bus[start:start + step * n * w:step]         # a strided slice of the Signal itself, exactly n*w bits
+            else:
+                conn = conns[cname](m)
+                conn = conn[0:n * w]
             m.arr = n * E()(p=conn, q=m.c)
             return m
         return b
-    for cname in conns:
+    for cname in list(conns) + ["direct-step2", "direct-step3"]:
         for n, w in ((4, 1), (2, 2), (3, 1), (2, 1)):
             yield (f"array-share/{cname}/{n}x{w}", mk(cname, n, w))
 
